@@ -39,6 +39,7 @@ type Scenario struct {
 	MapPolicy  int     `json:"map_policy"`
 	SkipAlone  bool    `json:"skip_alone,omitempty"`
 	Typed      bool    `json:"typed,omitempty"`
+	Prefix     string  `json:"prefix,omitempty"` // typed scenarios: the server is mounted under this path prefix and the client is given the matching base URL
 }
 
 // Result of one scenario.
@@ -145,7 +146,7 @@ func runPhase(t *testing.T, sc *Scenario, tasks [][]Call, faults, trivial bool, 
 				return
 			}
 			impls = tp.Impls
-			h, cl, whc, err := tp.New(typedHandler(tp.Impls), typedNewError, typedFill, typedSecSaw, tr, SimErrorHandler, typedMiddleware, secondMiddleware)
+			h, cl, whc, err := tp.New(sc.Prefix, typedHandler(tp.Impls), typedNewError, typedFill, typedSecSaw, tr, SimErrorHandler, typedMiddleware, secondMiddleware)
 			if err != nil {
 				res.trouble = err.Error()
 				return
